@@ -443,23 +443,26 @@ impl BiscuitBuilder {
     }
 
     fn add_fact(&mut self, fact: &str) -> Result<(), biscuit_auth::error::Token> {
-        let mut inner = self.0.take().unwrap();
-        inner = inner.fact(fact)?;
-        self.0 = Some(inner);
+        // the inner builder is consumed by the call: work on a copy so that a refused
+        // item leaves the builder usable
+        let inner = self.0.clone().unwrap();
+        self.0 = Some(inner.fact(fact)?);
         Ok(())
     }
 
     fn add_rule(&mut self, rule: &str) -> Result<(), biscuit_auth::error::Token> {
-        let mut inner = self.0.take().unwrap();
-        inner = inner.rule(rule)?;
-        self.0 = Some(inner);
+        // the inner builder is consumed by the call: work on a copy so that a refused
+        // item leaves the builder usable
+        let inner = self.0.clone().unwrap();
+        self.0 = Some(inner.rule(rule)?);
         Ok(())
     }
 
     fn add_check(&mut self, check: &str) -> Result<(), biscuit_auth::error::Token> {
-        let mut inner = self.0.take().unwrap();
-        inner = inner.check(check)?;
-        self.0 = Some(inner);
+        // the inner builder is consumed by the call: work on a copy so that a refused
+        // item leaves the builder usable
+        let inner = self.0.clone().unwrap();
+        self.0 = Some(inner.check(check)?);
         Ok(())
     }
 }
@@ -813,23 +816,26 @@ impl BlockBuilder {
     }
 
     fn add_fact(&mut self, fact: &str) -> Result<(), biscuit_auth::error::Token> {
-        let mut inner = self.0.take().unwrap();
-        inner = inner.fact(fact)?;
-        self.0 = Some(inner);
+        // the inner builder is consumed by the call: work on a copy so that a refused
+        // item leaves the builder usable
+        let inner = self.0.clone().unwrap();
+        self.0 = Some(inner.fact(fact)?);
         Ok(())
     }
 
     fn add_rule(&mut self, rule: &str) -> Result<(), biscuit_auth::error::Token> {
-        let mut inner = self.0.take().unwrap();
-        inner = inner.rule(rule)?;
-        self.0 = Some(inner);
+        // the inner builder is consumed by the call: work on a copy so that a refused
+        // item leaves the builder usable
+        let inner = self.0.clone().unwrap();
+        self.0 = Some(inner.rule(rule)?);
         Ok(())
     }
 
     fn add_check(&mut self, check: &str) -> Result<(), biscuit_auth::error::Token> {
-        let mut inner = self.0.take().unwrap();
-        inner = inner.check(check)?;
-        self.0 = Some(inner);
+        // the inner builder is consumed by the call: work on a copy so that a refused
+        // item leaves the builder usable
+        let inner = self.0.clone().unwrap();
+        self.0 = Some(inner.check(check)?);
         Ok(())
     }
 }
@@ -997,30 +1003,34 @@ pub unsafe extern "C" fn block_builder_free(_builder: Option<Box<BlockBuilder>>)
 
 impl AuthorizerBuilder {
     fn add_fact(&mut self, fact: &str) -> Result<(), biscuit_auth::error::Token> {
-        let mut inner = self.0.take().unwrap();
-        inner = inner.fact(fact)?;
-        self.0 = Some(inner);
+        // the inner builder is consumed by the call: work on a copy so that a refused
+        // item leaves the builder usable
+        let inner = self.0.clone().unwrap();
+        self.0 = Some(inner.fact(fact)?);
         Ok(())
     }
 
     fn add_rule(&mut self, rule: &str) -> Result<(), biscuit_auth::error::Token> {
-        let mut inner = self.0.take().unwrap();
-        inner = inner.rule(rule)?;
-        self.0 = Some(inner);
+        // the inner builder is consumed by the call: work on a copy so that a refused
+        // item leaves the builder usable
+        let inner = self.0.clone().unwrap();
+        self.0 = Some(inner.rule(rule)?);
         Ok(())
     }
 
     fn add_check(&mut self, check: &str) -> Result<(), biscuit_auth::error::Token> {
-        let mut inner = self.0.take().unwrap();
-        inner = inner.check(check)?;
-        self.0 = Some(inner);
+        // the inner builder is consumed by the call: work on a copy so that a refused
+        // item leaves the builder usable
+        let inner = self.0.clone().unwrap();
+        self.0 = Some(inner.check(check)?);
         Ok(())
     }
 
     fn add_policy(&mut self, policy: &str) -> Result<(), biscuit_auth::error::Token> {
-        let mut inner = self.0.take().unwrap();
-        inner = inner.policy(policy)?;
-        self.0 = Some(inner);
+        // the inner builder is consumed by the call: work on a copy so that a refused
+        // item leaves the builder usable
+        let inner = self.0.clone().unwrap();
+        self.0 = Some(inner.policy(policy)?);
         Ok(())
     }
 }
